@@ -49,6 +49,10 @@ func loadPkg(dir string) *pkgFiles {
 	return p
 }
 
+func parserParse(fset *token.FileSet, path string) (*ast.File, error) {
+	return parser.ParseFile(fset, path, nil, 0)
+}
+
 func sortedFileNames(p *pkgFiles) []string {
 	var ns []string
 	for n := range p.files {
